@@ -83,7 +83,8 @@ def cbmc_job(workdir, name, harness_file, entry, enforce=None, replace=(), loop_
          [harness_file, '-o', a]
     rc, out, s, to = run(cc, cwd=workdir, timeout=120)
     if rc != 0 or to:
-        r.status, r.detail, r.log = 'error', 'goto-cc failed', out
+        first = next((l.strip() for l in out.splitlines() if 'error' in l.lower() or 'not declared' in l or 'undeclared' in l), '')
+        r.status, r.detail, r.log = 'error', 'goto-cc failed' + (': ' + first[:200] if first else ''), out
         r.seconds = time.time() - t0
         return r
     gi = ['goto-instrument', '--dfcc', entry]
